@@ -7,19 +7,21 @@ open List0
 open Names
 open Path
 open Protocol
+open Resume
 open Transfer
 open Wire
 
 (** val ft_feed :
     (byte list -> 'a1) -> ('a1 -> 'a1 -> bool) -> (byte list -> byte list
-    option) -> (byte list -> byte list option) -> tr_cfg -> path -> tr_rstate
-    -> 'a1 tr_msg list -> tr_rstate * 'a1 tr_msg list **)
+    option) -> (byte list -> byte list option) -> (byte list -> digest) ->
+    (byte list -> (src * coq_Z) option) -> tr_cfg -> path -> tr_rstate -> 'a1
+    tr_msg list -> tr_rstate * 'a1 tr_msg list **)
 
-let rec ft_feed h deq zdecomp unzl c dest st = function
+let rec ft_feed h deq zdecomp unzl hx aparse c dest st = function
 | [] -> (st, [])
 | m :: r ->
-  let (st1, outs) = tr_receiver h deq zdecomp unzl c dest st m in
-  let (st2, outs2) = ft_feed h deq zdecomp unzl c dest st1 r in
+  let (st1, outs) = tr_receiver h deq zdecomp unzl hx aparse c dest st m in
+  let (st2, outs2) = ft_feed h deq zdecomp unzl hx aparse c dest st1 r in
   (st2, (app outs outs2))
 
 (** val ft_line : 'a1 tr_msg -> 'a1 line **)
@@ -86,19 +88,22 @@ let ft_is_digest = function
 
 (** val ft_run :
     (byte list -> 'a1) -> ('a1 -> 'a1 -> bool) -> (byte list -> byte list
-    option) -> (byte list -> byte list option) -> tr_cfg -> path -> tr_rstate
-    -> 'a1 ft_ghost -> 'a1 tr_msg list -> (tr_rstate * 'a1 tr_msg list) * 'a1
+    option) -> (byte list -> byte list option) -> (byte list -> digest) ->
+    (byte list -> (src * coq_Z) option) -> tr_cfg -> path -> tr_rstate -> 'a1
+    ft_ghost -> 'a1 tr_msg list -> (tr_rstate * 'a1 tr_msg list) * 'a1
     ft_saved list **)
 
-let rec ft_run h deq zdecomp unzl c dest st g = function
+let rec ft_run h deq zdecomp unzl hx aparse c dest st g = function
 | [] -> ((st, []), [])
 | m :: r ->
-  let (st1, outs) = tr_receiver h deq zdecomp unzl c dest st m in
+  let (st1, outs) = tr_receiver h deq zdecomp unzl hx aparse c dest st m in
   let g1 = ft_ghost_step c st m g in
   let sv =
     match st.rs_phase with
     | RpNum -> []
     | RpName -> []
+    | RpHSize (_, _, _) -> []
+    | RpHash (_, _, _, _, _) -> []
     | RpSize _ -> []
     | RpComp (_, _) -> []
     | RpData (_, _, _, _, _) -> []
@@ -119,17 +124,19 @@ let rec ft_run h deq zdecomp unzl c dest st g = function
        | _ -> [])
     | _ -> []
   in
-  let (p, svs) = ft_run h deq zdecomp unzl c dest st1 g1 r in
+  let (p, svs) = ft_run h deq zdecomp unzl hx aparse c dest st1 g1 r in
   let (st2, outs2) = p in ((st2, (app outs outs2)), (app sv svs))
 
 (** val ft_receive :
     (byte list -> 'a1) -> ('a1 -> 'a1 -> bool) -> (byte list -> byte list
-    option) -> (byte list -> byte list option) -> tr_cfg -> path -> fs ->
-    tr_sched list -> 'a1 tr_msg list -> (tr_rstate * 'a1 tr_msg list) * 'a1
-    ft_saved list **)
+    option) -> (byte list -> byte list option) -> (byte list -> digest) ->
+    (byte list -> (src * coq_Z) option) -> tr_cfg -> path -> fs -> tr_sched
+    list -> 'a1 tr_msg list -> (tr_rstate * 'a1 tr_msg list) * 'a1 ft_saved
+    list **)
 
-let ft_receive h deq zdecomp unzl c dest f0 sch ms =
-  ft_run h deq zdecomp unzl c dest (tr_receiver_init f0 sch) ft_ghost0 ms
+let ft_receive h deq zdecomp unzl hx aparse c dest f0 sch ms =
+  ft_run h deq zdecomp unzl hx aparse c dest (tr_receiver_init f0 sch)
+    ft_ghost0 ms
 
 (** val ft_verdict :
     (byte list -> 'a1) -> ('a1 -> 'a1 -> bool) -> (byte list -> byte list
